@@ -30,6 +30,9 @@ def run(ctx, repo):
     parms, pchain = dispatch_arms(perf)
     if sarms is None or parms is None:
         raise AnalysisError('score()/performance(): dispatch chain not found')
+    from .c01 import dispatch_case_rule
+    dispatch_case_rule(ctx, repo, mod, score, 'R2')
+    dispatch_case_rule(ctx, repo, mod, perf, 'R2')
     markname = score.args.args[2].arg
     target = perf.args.args[2].arg
     SR, PR = score_roles(score), score_roles(perf)
